@@ -7,9 +7,9 @@ EXTENDS Fetcher, TLC
 
 CONSTANTS Ids, Peers, Horizon, Arr
 VARIABLES now
-mvars == <<arrive, forget, ann, reqs, reported, stops, interested, unint, susp, unsusp, now>>
+mvars == <<arrive, forget, ann, reqs, reported, stops, rcv, nint, interested, unint, susp, unsusp, now>>
 
-MInit == /\ arrive = Arr /\ forget = 100 /\ ann = <<>> /\ reqs = <<>> /\ reported = {} /\ stops = <<>>
+MInit == /\ arrive = Arr /\ forget = 100 /\ ann = <<>> /\ reqs = <<>> /\ reported = {} /\ stops = <<>> /\ rcv = <<>> /\ nint = <<>>
          /\ interested = <<>> /\ unint = <<>> /\ susp = FALSE /\ unsusp = 0 /\ now = 0
 Tick == now < Horizon /\ now' = now + 1 /\ UNCHANGED fvars
 Quiet(A) == A /\ UNCHANGED now
@@ -23,14 +23,14 @@ MSpec == MInit /\ [][MNext]_mvars
 
 \* every request was preceded by an announcement of the item (by some peer) and by an "interesting" report
 RequestsJustified == \A id \in DOMAIN reqs : reqs[id] # {} => (Get(ann, id, {}) # {} /\ id \in reported)
-\* no request later than 2*arrive after the latest stop unless announced anew
-NoStaleRequests == \A id \in DOMAIN reqs : \A r \in reqs[id] : \A s \in Get(stops, id, {}) :
-                      (r > s + 2 * arrive /\ \A s2 \in Get(stops, id, {}) : s2 <= s \/ s2 > r) =>
+\* no request later than 2*arrive after a receipt unless the item was announced anew in between
+NoStaleRequests == \A id \in DOMAIN reqs : \A r \in reqs[id] : \A s \in Get(rcv, id, {}) :
+                      (r > s + 2 * arrive /\ \A s2 \in Get(rcv, id, {}) : s2 <= s \/ s2 > r) =>
                          \E a \in Get(ann, id, {}) : a.t >= s /\ a.t <= r
 \* the obligation is not vacuous: some reachable state refuses to end (used with -- expected violation -- in a separate cfg)
 EndAlwaysPossible == ENABLED End(now)
 Small == \A id \in Ids : Cardinality(Get(ann, id, {})) <= 2 /\ Cardinality(Get(reqs, id, {})) <= 1
-                         /\ Cardinality(Get(stops, id, {})) <= 1 /\ Cardinality(Get(unint, id, {})) <= 1
+                         /\ Cardinality(Get(stops, id, {})) <= 2 /\ Cardinality(Get(rcv, id, {})) <= 1 /\ Cardinality(Get(unint, id, {})) <= 1
 \* quick tier: no interest changes in the model
 SmallQ == Small /\ \A id \in Ids : Get(unint, id, {}) = {} /\ Get(interested, id, TRUE)
 =============================================================================
